@@ -12,7 +12,8 @@ LEVEL_TEXT = ("All sequences of length <=3 (thorough <=4) over 11 entity-produci
               "a table with a trailing comment, a block comment) x 3 modes (thorough: all 15) are parsed flat and grouped by the real "
               "library; the grouped result must be exactly the flat entities redistributed by kind, in order."
               " Empty and blank comment texts are part of the alphabet, and every corpus script is regrouped too (flat result as reference)."
-              " The flat and the grouped result are also taken from ONE parser object, in both call orders.")
+              " The flat and the grouped result are also taken from ONE parser object, in both call orders."
+              " Wave 7: every script length 5..64 (thorough ..160) - mostly tables with a minority kind at a low, a middle and a high position, and all kinds cycling from every offset; sequences of <=2 statements with the result also written to a dump file (the returned value and the file must equal the dump-free result).")
 LEVEL_NOTE = "The flat result is the reference (its own correctness is C01-C18's subject); entity kinds are fixed by the statement alphabet."
 RULE = ("case = (sequence of statements, output mode); non-trivial = sequence with >= 2 statements of >= 2 different kinds; "
         "distinct by (sequence, mode)")
@@ -60,6 +61,19 @@ def gen_cases(tier):
             # the trailing SET defect (a last-line SET is dropped) affects flat and grouped alike: not excluded
             for m in (modes if n <= 3 else ["sql", "bigquery"]):
                 cases.append({"seq": list(seq), "mode": m})
+    # wave 7 scale sweep: every script length 5..64 (thorough ..160): (a) mostly tables with one minority kind at a low and a high position,
+    # (b) all kinds cycling from every offset; every statement carries its own index
+    for n in range(5, (160 if tier == "thorough" else 64) + 1):
+        for kind in LONG_MINOR:
+            for lo in (0, 3, 6, 9):
+                if lo < n - 2:
+                    cases.append({"long": {"n": n, "minor": kind, "at": [lo, n - 1 - (lo % 2), (lo + n) // 2]}, "mode": "sql"})
+        for off in range(len(LONG_ALL)):
+            cases.append({"long": {"n": n, "off": off}, "mode": ("sql", "hql", "bigquery")[(n + off) % 3]})
+    # ... and the grouped result asked for together with a dump file (the returned value must not depend on the dump)
+    for n in (1, 2):
+        for seq in itertools.product(keys, repeat=n):
+            cases.append({"seq": list(seq), "mode": "sql", "dump": True})
     # every script of the regression corpus, regrouped in every mode (the flat result is the reference; no expectation on its kinds)
     from ..util import load_corpus
     seen = set()
@@ -82,7 +96,24 @@ def kind_of(e):
     return None
 
 
+LONG_T = {"T": "CREATE TABLE s1.t{i} (a int NOT NULL, b varchar(10) DEFAULT 'x{i}');", "TY": "CREATE TYPE s1.m{i} AS ENUM ('sad{i}', 'ok');",
+          "SQ": "CREATE SEQUENCE s1.q{i} START {i};", "DM": "CREATE DOMAIN s1.d{i} AS varchar(10);", "SC": "CREATE SCHEMA sc{i};", "DB": "CREATE DATABASE db{i};",
+          "TS": "CREATE TABLESPACE ts{i};", "SET": "SET x{i} = {i};", "TC": "CREATE TABLE tc{i} (c int); -- note {i}"}
+LONG_MINOR = ["TY", "SQ", "DM", "SC", "DB", "TS", "SET", "TC"]
+LONG_ALL = ["T", "TY", "T", "SQ", "TC", "DM", "SC", "T", "DB", "TS", "SET"]
+
+
+def long_ddl(L):
+    if "minor" in L:
+        ks = [L["minor"] if i in L["at"] else "T" for i in range(L["n"])]
+    else:
+        ks = [LONG_ALL[(i + L["off"]) % len(LONG_ALL)] for i in range(L["n"])]
+    return "\n".join(LONG_T[k].format(i=i) for i, k in enumerate(ks))
+
+
 def _ddl(case):
+    if "long" in case:
+        return long_ddl(case["long"])
     return case["corpus"] if "corpus" in case else "\n".join(S[k] for k in case["seq"])
 
 
@@ -107,6 +138,24 @@ def evaluate(case):
         if got[False] != flat[1] or got[True] != grp[1]:
             diffs.append(diff("same object, group_by_type=%s then %s" % order, "same-object-regrouping-differs",
                               short([flat[1], grp[1]], 300), short([got[False], got[True]], 300)))
+    if case.get("dump"):
+        import os
+        import shutil
+        import tempfile
+        from .. import sut
+        d = tempfile.mkdtemp(prefix="c13_", dir=sut.scratch_base())
+        try:
+            for gb, ref in ((True, grp[1]), (False, flat[1])):
+                got = norm(DDLParser(ddl).run(output_mode=case["mode"], group_by_type=gb, dump=True, dump_path=d + "/o%d" % gb, file_path=d + "/in.sql"))
+                if got != ref:
+                    diffs.append(diff("run(group_by_type=%s, dump=True)" % gb, "result-depends-on-dump", short(ref, 300), short(got, 300)))
+                fs = os.listdir(d + "/o%d" % gb) if os.path.isdir(d + "/o%d" % gb) else []
+                if len(fs) != 1 or json.load(open(d + "/o%d/%s" % (gb, fs[0]))) != ref:
+                    diffs.append(diff("dump file of run(group_by_type=%s, dump=True)" % gb, "dump-differs-from-result", short(ref, 200), fs))
+        except Exception as e:  # noqa
+            diffs.append(diff("run(dump=True)", "raises", "result", type(e).__name__ + ": " + str(e)[:100]))
+        finally:
+            shutil.rmtree(d, ignore_errors=True)
     flat, g = flat[1], grp[1]
     if not isinstance(g, dict):
         return {"diffs": [diff("grouped result", "not-a-dict", "dict", short(g))], "outcome": "bad"}
@@ -129,7 +178,9 @@ def evaluate(case):
         for b in sorted(set(g) | set(exp)):
             if g.get(b) != exp.get(b):
                 diffs.append(diff("bucket " + b, "bucket-differs", short(exp.get(b, "<absent>")), short(g.get(b, "<absent>"))))
-    if "corpus" in case:
+    if "long" in case and len(flat_ent) != case["long"]["n"]:
+        diffs.append(diff("flat result of the long script", "flat-kinds-differ", case["long"]["n"], len(flat_ent)))
+    if "corpus" in case or "long" in case:
         return {"diffs": diffs, "nontrivial": len(flat_ent) >= 2, "outcome": json.dumps(sorted((b, len(v)) for b, v in g.items()))}
     # the flat list itself must have one entity per entity statement, of the right kind, in order
     want = [BUCKET[k] for k in case["seq"] if k in BUCKET]
